@@ -55,6 +55,17 @@ def gate_sites(crate, body):
     for s in S.call_sites(body):
         if s.args and s.args[0] == res and s.path.endswith(("::insert", "::extend")):
             out.append(s)
+    if not out and res[0] == "phi":
+        # guard clauses: early returns of an empty set, then the real result returned directly: the place where a non-empty result is
+        # returned is the reporting site
+        class _Ret:
+            def __init__(self, bb):
+                self.bb = bb
+        all_sites = S.call_sites(body)
+        for bb, v in S.def_table(body, 0):
+            empty = v[0] == "call" and v[1].endswith("::new") and not any(s.args and s.args[0] == v and s.path.endswith(("::insert", "::extend")) for s in all_sites)
+            if not empty:
+                out.append(_Ret(bb))
     return out
 
 
